@@ -71,14 +71,16 @@ def content_digest(path):
     return h.hexdigest()
 
 
-def trace_json(t):
-    return {"calls": [[c["fn"], c["mode"], c["file"], c["line"], c["handle"], c["out"]] for c in t.calls],
-            "entries": [[e["fn"], e["hmode"], e["out"]] for e in t.entries]}
+def _h5name(ws):
+    f = ws.h5file
+    return os.path.realpath(str(f)) if isinstance(f, (str, os.PathLike)) else "<memory>"
 
 
-def call_traced(thunk):
-    """run thunk under a trace; returns (exception kind | None, message, trace dict)"""
+def call_traced(thunk, ws=None):
+    """run thunk under a trace; returns exception kind, message, the _io_call's of `ws` and the top-level H5 routine entries on
+    the file(s) `ws` points at (before / after the call); calls and entries of other workspaces are only counted"""
     exc, msg = None, ""
+    names = {_h5name(ws)} if ws is not None else set()
     with iotrace.Trace() as t:
         try:
             thunk()
@@ -86,9 +88,14 @@ def call_traced(thunk):
             if isinstance(e, (KeyboardInterrupt, SystemExit, MemoryError)):
                 raise
             exc, msg = iotrace.exc_kind(e), str(e)[:160]
-    d = trace_json(t)
-    d["exc"], d["msg"] = exc, msg
-    return d
+    if ws is not None:
+        names.add(_h5name(ws))
+    mine = [c for c in t.calls if ws is None or c["ws"] == id(ws)]
+    ents = [e for e in t.entries if ws is None or os.path.realpath(e["hfile"]) in names]
+    return {"calls": [[c["fn"], c["mode"], c["file"], c["line"], c["handle"], c["out"]] for c in mine],
+            "entries": [[e["fn"], e["hmode"], e["out"]] for e in ents],
+            "foreign_calls": len(t.calls) - len(mine), "foreign_entries": len(t.entries) - len(ents),
+            "exc": exc, "msg": msg}
 
 
 def open_ws(path, mode):
@@ -127,7 +134,7 @@ def run_entry(work, mode, entry, state="open", tag="e"):
             if state == "closed":
                 ws.close()
             res["handle_before"] = iotrace.handle_state(ws)
-            res.update(call_traced(thunk))
+            res.update(call_traced(thunk, ws))
             res["handle_after"] = iotrace.handle_state(ws)
             res["sha_same_open"] = iofix.sha256(path) == sha0 if mode == "r" or state == "closed" else None
         finally:
@@ -163,3 +170,22 @@ def baseline_digest(work):
         _BASE[key] = content_digest(path)
         os.remove(path)
     return _BASE[key]
+
+
+def reflect(work):
+    """entry points (reflection on $VERIF_REPO's geoh5py) and the class MRO of every fixture target"""
+    path, log = fixture(work)
+    with warnings.catch_warnings():
+        warnings.simplefilter("ignore")
+        ws = open_ws(path, "r")
+        T = iofix.derived_targets(ws)
+        mros = {}
+        for lab, f in T.items():
+            try:
+                o = f()
+            except BaseException:  # noqa: BLE001
+                o = None
+            if o is not None:
+                mros[lab] = [k.__name__ for k in type(o).__mro__ if k.__module__.startswith("geoh5py")]
+        ws.close()
+    return {"entries": [list(e) for e in iofix.entry_points()], "mros": mros, "fixture_problems": log}
